@@ -498,7 +498,11 @@ class RainbowDQN(RLAlgorithm):
                     action = self.get_action(
                         obs, training=False, action_mask=action_mask
                     )
+                    if not hasattr(env, "num_envs"):
+                        action = action[0]
+
                     obs, reward, done, trunc, info = env.step(action)
+                    done, trunc = np.atleast_1d(done), np.atleast_1d(trunc)
                     step += 1
                     scores += np.array(reward)
                     for idx, (d, t) in enumerate(zip(done, trunc)):
